@@ -113,6 +113,11 @@ def _act(r, i, e, occ):
             sys.stderr.buffer.write(text.encode('utf-8'))
         elif st == 'print':
             print(text, end='')
+        elif st == 'realstderr.bytes':
+            # raw bytes on fd 2 of the child (a C library, a helper process, Latin-1 text)
+            if r.real_stderr is not None:
+                r.real_stderr.buffer.write(bytes.fromhex(e['hex']))
+                r.real_stderr.flush()
         elif st == 'realstderr':
             # the child's protocol channel (fd 2 of a real child)
             if r.real_stderr is not None:
